@@ -15,6 +15,7 @@ mod ser;
 mod c05;
 mod c11;
 mod c15;
+mod c18;
 mod c07;
 mod c16;
 mod c17;
@@ -66,6 +67,7 @@ fn main() {
             "C05" => c05::replay(&rep, case),
             "C11" => c11::replay(&rep, case),
             "C15" => c15::replay(&rep, case),
+            "C18" => c18::replay(&rep, case),
             "C07" => c07::replay(&rep, case),
             "C16" => c16::replay(&rep, case),
             "C17" => c17::replay(&rep, case),
@@ -83,6 +85,7 @@ fn main() {
         "C05" => c05::run(&rep),
         "C11" => c11::run(&rep),
         "C15" => c15::run(&rep),
+        "C18" => c18::run(&rep),
         "C07" => c07::run(&rep),
         "C16" => c16::run(&rep),
         "C17" => c17::run(&rep),
